@@ -28,7 +28,6 @@ from typing import TYPE_CHECKING
 from igraph import Vertex
 
 from explorerscript.ssb_converting.decompiler.write_handlers.abstract import AbstractWriteHandler
-from explorerscript.ssb_converting.decompiler.graph_building.graph_utils import find_lowest_and_highest_out_edge
 from explorerscript.ssb_converting.ssb_special_ops import SsbLabelJump, SsbLabel, SsbForeignLabel
 
 if TYPE_CHECKING:
@@ -52,9 +51,10 @@ class CallWriteHandler(AbstractWriteHandler):
         assert op.label is not None
         exits = self.start_vertex.out_edges()
         assert 3 > len(exits) > 0, f"A call must have exactly one or two points to jump to, has {len(exits)}."
-        # The edge with the lower flow level leads to the next op, the other one to the called label. The order of
-        # the edges in the graph says nothing, and the called label may have been merged into another label.
-        next_edge, call_edge = find_lowest_and_highest_out_edge(self.start_vertex.graph, self.start_vertex, "flow_level")
+        # One edge leads to the next op, the other one (marked when the graph was built) to the called label. The
+        # order of the edges in the graph says nothing, and the called label may have been merged into another label.
+        call_edge = next(e for e in exits if e["call"])
+        next_edge = next((e for e in exits if not e["call"]), call_edge)
         label_id = op.label.id
         called_op = call_edge.target_vertex["op"]
         if isinstance(called_op, SsbLabel):
